@@ -182,7 +182,7 @@ def validate_traces(module, cfg, traces, shards=None, timeout=1800, extra_top=No
         st = {"states": 0, "distinct": 0, "tlc_runs": shards}
         for k, res in enumerate(results):
             if not tlc_ok(res):
-                tail = "\n".join(res["out"].splitlines()[-40:])
+                tail = "\n".join(l[:300] for l in res["out"].splitlines()[-90:])
                 raise MachineryError("trace validation %s shard %d failed:\n%s" % (module, k, tail))
             st["states"] += res["states"]
             st["distinct"] += res["distinct"]
